@@ -4,6 +4,7 @@ import ComposeVerif.Model.EnvLayers
 import ComposeVerif.Spec.EnvLayers
 import ComposeVerif.Model.EnvLayersLoad
 import ComposeVerif.Model.EnvLayersSites
+import ComposeVerif.Model.EnvLayersUnicity
 /-! line-protocol ops for C16: `c16.env`, `c16.labels`, `c16.load` (model) and `c16.spec` (specification) -/
 open Lean
 namespace CV.Ops.C16
@@ -145,10 +146,18 @@ def loadOp : Handler := fun args =>
   let cfg : LoadCfg := { skipNormalization := getBool args "skip_normalization",
                          skipResolveEnvironment := getBool args "skip_resolve_environment",
                          discard := getBool args "discard" }
+  -- round 7: `override.EnforceUnicity` on the `env_file` list as written (first position, last entry); the key of an
+  -- entry is the text of its path when the stage runs: in the `extends-split` layout the first half of the list is
+  -- written in base/b.yaml and reaches the stage as an absolute path under base/, the rest as written
+  let split := getStr args "layout" == "extends-split"
   let svcs := (arr args "services").map fun j =>
-    ((serviceOfJson j).1, ({ yenv := yenvOf j, ylabels := ylabelsOf j, svc := (serviceOfJson j).2 } : YService))
-  -- `methods`: the second call site (load with SkipResolveEnvironment, then the Project method); `layout` is not read:
-  -- the model is the same wherever the services are written (`relocation_env`, `relocation_labels`)
+    let s := (serviceOfJson j).2
+    let ne := (s.envFiles.length + 1) / 2
+    let keys := (List.range s.envFiles.length).zip s.envFiles |>.map fun (p : Nat × EnvFile) =>
+      if split && p.1 < ne then "base/".toList ++ p.2.path else p.2.path
+    ((serviceOfJson j).1, ({ yenv := yenvOf j, ylabels := ylabelsOf j, svc := enforceUnicityFilesKeyed keys s } : YService))
+  -- `methods`: the second call site (load with SkipResolveEnvironment, then the Project method); apart from the keys
+  -- above `layout` is not read: the model is the same wherever the services are written (`relocation_env`, `relocation_labels`)
   if getBool args "methods" then outJson (loadThenResolveY cfg penv fs svcs)
   else outJson (loadProjectY cfg penv fs svcs)
 
